@@ -106,6 +106,10 @@ def call_contract(ex, module, qualname, argskw, node, self_obj=None):
     kw = dict(kw)
     splat = kw.pop('**', None)
     bound = bind_args(ex, c, fdef, args, kw, self_obj, node, partial=splat is not None)
+    for pn, pty in c.params:
+        if pty == 'Model' and isinstance(bound.get(pn), V) and bound[pn].t.eq(VNone):
+            # no model given: the callee falls back to its own default, which is not the caller's
+            bound[pn] = SModel(z3.Const('callee_default_model', vl.ModelS))
     cnames = [p for p, _ in c.params]
     if '__kwargs__' in cnames:
         bound['__kwargs__'] = splat if splat is not None else V(VNone)
